@@ -24,6 +24,11 @@ def timed_source(rng):
             if r < 0.5:
                 m = rng.randint(1, 40); b = rng.randint(1, num); t = rng.randint(0, max(0, beat - 1))
                 parts.append("TIME(%d:%d:%d) %s" % (m, b, t, rng.choice(["c", "d8", "e2", "n60,4", "y7,100", "@3"])))
+            elif r < 0.54:
+                # verbatim bytes of every channel-message kind (1- and 2-data-byte forms), followed by further events
+                parts.append(rng.choice(["DirectSMF($D0,$%02X)" % rng.randint(0, 127), "DirectSMF($C%X,%d)" % (rng.randint(0, 15), rng.randint(0, 127)),
+                                         "DirectSMF($A0,%d,%d)" % (rng.randint(0, 127), rng.randint(0, 127)), "DirectSMF($E0,%d,%d)" % (rng.randint(0, 127), rng.randint(0, 127)),
+                                         "DirectSMF($B0,7,100)", "DirectSMF($90,60,100) DirectSMF($80,60,0)"]) + " " + rng.choice(["c", "d8 e", "r c"]))
             elif r < 0.58:
                 # meta events whose payload holds bytes >= 0x80 (not valid UTF-8 on their own) or multi-byte text, followed by further events
                 parts.append(rng.choice(["Port(%d)" % rng.choice([200, 128, 255, 127, 0, 5]), "TrackName={\"%s\"}" % rng.choice(["あいう", "é", "Ж€😀", "abc"]), "Lyric={\"ら\"}", "Marker={\"ü\"}"]) + " " + rng.choice(["c", "d8 e", "TIME(2:1:0) c"]))
